@@ -21,7 +21,10 @@ MC_Leads == {
     [text |-> "(x>=6)*a", parse |-> "opaque", coef |-> 0,  body |-> ""],
     [text |-> "(x<=6)*a", parse |-> "opaque", coef |-> 0,  body |-> ""],
     [text |-> "(x==y)*a", parse |-> "opaque", coef |-> 0,  body |-> ""],
-    [text |-> "(x!=y)*a", parse |-> "opaque", coef |-> 0,  body |-> ""] }
+    [text |-> "(x!=y)*a", parse |-> "opaque", coef |-> 0,  body |-> ""],
+    [text |-> "-(a//b)", parse |-> "opaque", coef |-> 0,  body |-> ""],
+    [text |-> "-(a%b)",  parse |-> "opaque", coef |-> 0,  body |-> ""],
+    [text |-> "a//b",    parse |-> "opaque", coef |-> 0,  body |-> ""] }
 
 MC_Bodies == {"x", "y", "x*y", "x/y", "y/x", "2"}
 \* every accepted two-factor shape: name*name, name/name, number*name, number/name, name/number, name*number
